@@ -191,7 +191,14 @@ def rule_params_forwarded_(ctx: Ctx, rep: Report) -> None:
     rule_params_forwarded(ctx, rep, "C03.params_forwarded", ('btclib.ecc.ssa',), 30)
 
 
+def rule_terms_multiset(ctx: Ctx, rep: Report) -> None:
+    """C03.terms_multiset: the terms of a sum are one per seat, never deduplicated (see sigcommon.rule_terms_are_a_multiset)."""
+    from rules.sigcommon import rule_terms_are_a_multiset
+    rule_terms_are_a_multiset(ctx, rep, "C03.terms_multiset", ('btclib.curves.curve', 'btclib.ecc.ssa'), 2)
+
+
 RULES = [
+    ("C03.terms_multiset", rule_terms_multiset),
     ("C03.params_forwarded", rule_params_forwarded_),
     ("C03.own_fields", rule_own_fields),
     ("C03.dispatch_hf", rule_dispatch_hf),
